@@ -11,16 +11,17 @@ def visitHook (e : Nat) (h : Hook) : Hook :=
   else if exceeds h.max (h.count + 1) then { h with count := h.count + 1, attached := false }
   else { h with count := h.count + 1, fired := h.fired + 1 }
 
-/-- The invocation (if any) that visiting a user hook produces. -/
-def callOf (e a : Nat) (h : Hook) : Option Call :=
+/-- The invocation (if any) that visiting a user hook produces (`evPooled`: the event has a pool,
+`async`: the trigger itself runs in a pool worker). -/
+def callOf (evPooled async : Bool) (e a : Nat) (h : Hook) : Option Call :=
   if h.ev != e || !h.attached then none
   else if exceeds h.max (h.count + 1) then none
-  else some ⟨.call, h.handle, a, h.pooled⟩
+  else some ⟨.call, h.handle, a, async || effPooled evPooled h⟩
 
 /-- Everything visiting hook `h` appends to the log: the pre-trigger calls and the invocation. -/
-def entriesOf (evPre : Bool) (e a : Nat) (h : Hook) : List Call :=
-  match callOf e a h with
-  | some c => preCalls evPre e a h ++ [c]
+def entriesOf (evPre evPooled async : Bool) (e a : Nat) (h : Hook) : List Call :=
+  match callOf evPooled async e a h with
+  | some c => preCalls evPre async e a h ++ [c]
   | none => []
 
 theorem visitHook_pre (e : Nat) (h : Hook) : (visitHook e h).pre = h.pre := by
@@ -31,7 +32,7 @@ theorem visitHook_pre (e : Nat) (h : Hook) : (visitHook e h).pre = h.pre := by
 
 theorem visitHook_fields (e : Nat) (h : Hook) :
     (visitHook e h).ev = h.ev ∧ (visitHook e h).handle = h.handle ∧ (visitHook e h).max = h.max ∧
-    (visitHook e h).pooled = h.pooled ∧ (visitHook e h).link = h.link := by
+    (visitHook e h).pool = h.pool ∧ (visitHook e h).link = h.link := by
   unfold visitHook
   by_cases h1 : (h.ev != e || !h.attached) = true
   · simp [h1]
@@ -39,11 +40,11 @@ theorem visitHook_fields (e : Nat) (h : Hook) :
 
 theorem visitHook_link (e : Nat) (h : Hook) : (visitHook e h).link = h.link := (visitHook_fields e h).2.2.2.2
 
-theorem visitKey_nolink (trigRec : St → Nat → Nat → St × List Call) (e a : Nat) (s : St) (log : List Call)
-    (k : Nat) (h : Hook) (hk : s.hooks[k]? = some h) (hl : h.link = none) :
-    let r := visitKey trigRec e a (s, log) k
+theorem visitKey_nolink (trigRec : St → Nat → Nat → Bool → St × List Call) (e a : Nat) (async : Bool) (s : St)
+    (log : List Call) (k : Nat) (h : Hook) (hk : s.hooks[k]? = some h) (hl : h.link = none) :
+    let r := visitKey trigRec e a async (s, log) k
     r.1.hooks = s.hooks.set k (visitHook e h) ∧ r.1.evs = s.evs ∧ r.1.user = s.user ∧
-      r.2 = log ++ entriesOf (evPreOf s e) e a h := by
+      r.2 = log ++ entriesOf (evPreOf s e) (evPooledOf s e) async e a h := by
   have hself : s.hooks.set k h = s.hooks := by
     apply List.ext_getElem?
     intro j
@@ -64,8 +65,8 @@ theorem visitKey_nolink (trigRec : St → Nat → Nat → St × List Call) (e a 
     · simp [h1, h2, visitHook, callOf, entriesOf, setHook]
     · simp [h1, h2, hl, visitHook, callOf, entriesOf, setHook]
 
-theorem visitKey_none (trigRec : St → Nat → Nat → St × List Call) (e a : Nat) (acc : St × List Call)
-    (k : Nat) (hk : acc.1.hooks[k]? = none) : visitKey trigRec e a acc k = acc := by
+theorem visitKey_none (trigRec : St → Nat → Nat → Bool → St × List Call) (e a : Nat) (async : Bool)
+    (acc : St × List Call) (k : Nat) (hk : acc.1.hooks[k]? = none) : visitKey trigRec e a async acc k = acc := by
   simp [visitKey, hk]
 
 theorem flatMap_congr' {α β : Type} {l : List α} {f g : α → List β} (h : ∀ x ∈ l, f x = g x) :
@@ -85,12 +86,12 @@ def perKey {α β : Type} (l : List α) (f : α → List β) (k : Nat) : List β
 def NoLinks (s : St) : Prop := ∀ (k : Nat) (h : Hook), s.hooks[k]? = some h → h.link = none
 
 /-- The fold of `Trigger` over any duplicate-free list of keys, when there are no link hooks. -/
-theorem fold_visit (trigRec : St → Nat → Nat → St × List Call) (e a : Nat) (ks : List Nat) (hnd : ks.Nodup)
-    (s : St) (log : List Call) (hnl : NoLinks s) :
-    let r := ks.foldl (visitKey trigRec e a) (s, log)
+theorem fold_visit (trigRec : St → Nat → Nat → Bool → St × List Call) (e a : Nat) (async : Bool) (ks : List Nat)
+    (hnd : ks.Nodup) (s : St) (log : List Call) (hnl : NoLinks s) :
+    let r := ks.foldl (visitKey trigRec e a async) (s, log)
     r.1.evs = s.evs ∧ r.1.user = s.user ∧ r.1.hooks.length = s.hooks.length ∧
     (∀ j, r.1.hooks[j]? = if j ∈ ks then (s.hooks[j]?).map (visitHook e) else s.hooks[j]?) ∧
-    r.2 = log ++ ks.flatMap (perKey s.hooks (entriesOf (evPreOf s e) e a)) := by
+    r.2 = log ++ ks.flatMap (perKey s.hooks (entriesOf (evPreOf s e) (evPooledOf s e) async e a)) := by
   induction ks generalizing s log with
   | nil => simp
   | cons k ks ih =>
@@ -98,7 +99,7 @@ theorem fold_visit (trigRec : St → Nat → Nat → St × List Call) (e a : Nat
     simp only [List.foldl_cons]
     cases hk : s.hooks[k]? with
     | none =>
-      rw [visitKey_none trigRec e a (s, log) k hk]
+      rw [visitKey_none trigRec e a async (s, log) k hk]
       obtain ⟨h1, h2, h3, h4, h5⟩ := ih hnd.2 s log hnl
       refine ⟨h1, h2, h3, ?_, ?_⟩
       · intro j
@@ -108,8 +109,8 @@ theorem fold_visit (trigRec : St → Nat → Nat → St × List Call) (e a : Nat
         · simp [hj]
       · rw [h5]; simp [perKey, hk]
     | some h =>
-      obtain ⟨v1, v2, v3, v4⟩ := visitKey_nolink trigRec e a s log k h hk (hnl k h hk)
-      generalize visitKey trigRec e a (s, log) k = r1 at v1 v2 v3 v4
+      obtain ⟨v1, v2, v3, v4⟩ := visitKey_nolink trigRec e a async s log k h hk (hnl k h hk)
+      generalize visitKey trigRec e a async (s, log) k = r1 at v1 v2 v3 v4
       obtain ⟨s1, log1⟩ := r1
       simp only at v1 v2 v3 v4
       have hlt : k < s.hooks.length := by
@@ -126,7 +127,8 @@ theorem fold_visit (trigRec : St → Nat → Nat → St × List Call) (e a : Nat
         · simp [hkj] at hjs; exact hnl j hj hjs
       obtain ⟨h1, h2, h3, h4, h5⟩ := ih hnd.2 s1 log1 hnl1
       have hpre : evPreOf s1 e = evPreOf s e := by simp [evPreOf, v2]
-      rw [hpre] at h5
+      have hpoo : evPooledOf s1 e = evPooledOf s e := by simp [evPooledOf, v2]
+      rw [hpre, hpoo] at h5
       refine ⟨by rw [h1, v2], by rw [h2, v3], by rw [h3, v1]; simp, ?_, ?_⟩
       · intro j
         rw [h4 j, hget j]
@@ -161,20 +163,20 @@ theorem getElem?_lt0 {α : Type} {l : List α} {k : Nat} {x : α} (h : l[k]? = s
 /-- `Trigger` on a state without link hooks: the event counter is bumped; if the limit is not
 exceeded every hook record is visited once, in key order. -/
 theorem trig_nolink (fuel : Nat) (s : St) (e a : Nat) (hnl : NoLinks s) (ev : Ev) (hev : s.evs[e]? = some ev) :
-    let r := trig (fuel + 1) s e a
+    let r := trig (fuel + 1) s e a false
     r.1.user = s.user ∧ r.1.hooks.length = s.hooks.length ∧
     if exceeds ev.max (ev.count + 1) then
       r.1.hooks = s.hooks ∧ r.1.evs = s.evs.set e { ev with count := ev.count + 1 } ∧ r.2 = []
     else
       r.1.evs = s.evs.set e { ev with count := ev.count + 1, passed := ev.passed + 1 } ∧
       (∀ j : Nat, r.1.hooks[j]? = (s.hooks[j]?).map (visitHook e)) ∧
-      r.2 = s.hooks.flatMap (entriesOf ev.pre e a) := by
+      r.2 = s.hooks.flatMap (entriesOf ev.pre ev.pooled false e a) := by
   simp only [trig, hev]
   by_cases hx : exceeds ev.max (ev.count + 1) = true
   · simp [hx, setEv]
   · simp only [hx, Bool.false_eq_true, if_false]
     have hnl' : NoLinks (setEv s e { ev with count := ev.count + 1, passed := ev.passed + 1 }) := hnl
-    obtain ⟨h1, h2, h3, h4, h5⟩ := fold_visit (trig fuel) e a (List.range s.hooks.length) List.nodup_range
+    obtain ⟨h1, h2, h3, h4, h5⟩ := fold_visit (trig fuel) e a false (List.range s.hooks.length) List.nodup_range
       (setEv s e { ev with count := ev.count + 1, passed := ev.passed + 1 }) [] hnl'
     refine ⟨h2, h3, h1, ?_, ?_⟩
     · intro j
@@ -187,9 +189,11 @@ theorem trig_nolink (fuel : Nat) (s : St) (e a : Nat) (hnl : NoLinks s) (ev : Ev
       have hlt := getElem?_lt0 hev
       have hpre : evPreOf (setEv s e { ev with count := ev.count + 1, passed := ev.passed + 1 }) e = ev.pre := by
         simp [evPreOf, setEv, hlt]
-      rw [hpre]
+      have hpoo : evPooledOf (setEv s e { ev with count := ev.count + 1, passed := ev.passed + 1 }) e = ev.pooled := by
+        simp [evPooledOf, setEv, hlt]
+      rw [hpre, hpoo]
       simp only [List.nil_append, setEv]
-      exact range_flatMap_getElem s.hooks (entriesOf ev.pre e a)
+      exact range_flatMap_getElem s.hooks (entriesOf ev.pre ev.pooled false e a)
 
 /-! ## histories without `LinkTo` -/
 
@@ -210,7 +214,7 @@ structure NLInv (s : St) : Prop where
 structure F (op : Op) (k : Nat) (hk hk' : Hook) : Prop where
   ev : hk'.ev = hk.ev
   max : hk'.max = hk.max
-  pooled : hk'.pooled = hk.pooled
+  pool : hk'.pool = hk.pool
   pre : hk'.pre = hk.pre
   handle : hk'.handle = hk.handle
   link : hk'.link = hk.link
@@ -256,7 +260,7 @@ structure HooksRel (op : Op) (s s' : St) : Prop where
   old : ∀ (k : Nat) (hk : Hook), s.hooks[k]? = some hk → ∃ hk', s'.hooks[k]? = some hk' ∧ F op k hk hk'
   new : ∀ (k : Nat) (hk' : Hook), s'.hooks[k]? = some hk' → s.hooks[k]? = none →
     ∃ e m b p, op = .hook e m b p ∧ (step s op).2 = .hk k ∧
-      hk' = { ev := e, handle := k, link := none, max := m, count := 0, fired := 0, pooled := b, pre := p,
+      hk' = { ev := e, handle := k, link := none, max := m, count := 0, fired := 0, pool := b, pre := p,
               attached := true }
   created : ∀ e m b p k, op = .hook e m b p → (step s op).2 = .hk k →
     s.hooks[k]? = none ∧ (s'.hooks[k]?).isSome = true
@@ -279,7 +283,7 @@ theorem step_rel {s : St} (hs : NLInv s) (op : Op) (hop : op.isLink = false) :
     · intro k hk' h hn; rw [hh, hn] at h; cases h
     · intro e m b p k _ h; exact absurd h (hnh k)
   cases op with
-  | new m p => exact same _ rfl rfl (by simp) (by simp [step])
+  | new m p q => exact same _ rfl rfl (by simp) (by simp [step])
   | tcount e =>
     have hout : ∀ k, (step s (.tcount e)).2 ≠ .hk k := by
       intro k; simp only [step]; cases s.evs[e]? <;> simp
@@ -394,7 +398,7 @@ theorem step_rel {s : St} (hs : NLInv s) (op : Op) (hop : op.isLink = false) :
     · simp only [he, if_true]
       obtain ⟨ev, hev⟩ : ∃ x, s.evs[e]? = some x := ⟨s.evs[e], List.getElem?_eq_getElem he⟩
       obtain ⟨t1, t2, t3⟩ := trig_nolink s.evs.length s e a hs.nolinks ev hev
-      generalize trig (s.evs.length + 1) s e a = r at t1 t2 t3
+      generalize trig (s.evs.length + 1) s e a false = r at t1 t2 t3
       have hget : ∀ j : Nat, r.1.hooks[j]? = (s.hooks[j]?).map (visitHook e) ∨ r.1.hooks[j]? = s.hooks[j]? := by
         intro j
         by_cases hx : exceeds ev.max (ev.count + 1) = true
@@ -463,13 +467,13 @@ theorem final_snoc (s : St) (pre : List Op) (op : Op) : final s (pre ++ [op]) = 
 /-- What the history says about the hook records (histories without `LinkTo`). -/
 structure HInv (pre : List Op) : Prop where
   nl : NLInv (final init pre)
-  tracked : ∀ (p1 : List Op) (e m : Nat) (b p : Bool) (p2 : List Op) (k : Nat),
+  tracked : ∀ (p1 : List Op) (e m : Nat) (b : Option Bool) (p : Bool) (p2 : List Op) (k : Nat),
     pre = p1 ++ .hook e m b p :: p2 → (step (final init p1) (.hook e m b p)).2 = .hk k →
-    ∃ hk, (final init pre).hooks[k]? = some hk ∧ hk.ev = e ∧ hk.max = m ∧ hk.pooled = b ∧ hk.pre = p ∧
+    ∃ hk, (final init pre).hooks[k]? = some hk ∧ hk.ev = e ∧ hk.max = m ∧ hk.pool = b ∧ hk.pre = p ∧
       (hk.attached = true ↔ (∀ op ∈ p2, op ≠ .unhook k) ∧ ¬ exceeded hk)
   origin : ∀ (k : Nat) (hk : Hook), (final init pre).hooks[k]? = some hk →
-    ∃ p1 p2, pre = p1 ++ .hook hk.ev hk.max hk.pooled hk.pre :: p2 ∧
-      (step (final init p1) (.hook hk.ev hk.max hk.pooled hk.pre)).2 = .hk k
+    ∃ p1 p2, pre = p1 ++ .hook hk.ev hk.max hk.pool hk.pre :: p2 ∧
+      (step (final init p1) (.hook hk.ev hk.max hk.pool hk.pre)).2 = .hk k
 
 theorem hinv_nil : HInv [] := by
   refine ⟨⟨?_, rfl, ?_⟩, ?_, ?_⟩
@@ -494,7 +498,7 @@ theorem hinv_snoc {pre : List Op} (h : HInv pre) (op : Op) (hop : op.isLink = fa
       simp [exceeded]
     · obtain ⟨hk, hhk, h1, h2, h3, h3p, h4⟩ := h.tracked p1 e m b p p2' k hpre hout
       obtain ⟨hk', hhk', hf⟩ := hrel.old k hk hhk
-      refine ⟨hk', hhk', by rw [hf.ev, h1], by rw [hf.max, h2], by rw [hf.pooled, h3], by rw [hf.pre, h3p], ?_⟩
+      refine ⟨hk', hhk', by rw [hf.ev, h1], by rw [hf.max, h2], by rw [hf.pool, h3], by rw [hf.pre, h3p], ?_⟩
       constructor
       · intro hatt
         obtain ⟨ha, hne, hex⟩ := hf.att_down hatt
@@ -523,8 +527,8 @@ theorem hinv_snoc {pre : List Op} (h : HInv pre) (op : Op) (hop : op.isLink = fa
       rw [hhk'] at hhk2; cases hhk2
       obtain ⟨p1, p2, hdec, hout⟩ := h.origin k hk hold
       refine ⟨p1, p2 ++ [op], ?_, ?_⟩
-      · rw [hf.ev, hf.max, hf.pooled, hf.pre, hdec]; simp
-      · rw [hf.ev, hf.max, hf.pooled, hf.pre]; exact hout
+      · rw [hf.ev, hf.max, hf.pool, hf.pre, hdec]; simp
+      · rw [hf.ev, hf.max, hf.pool, hf.pre]; exact hout
 
 theorem hinv_of_noLink (pre : List Op) (hnl : noLink pre) : HInv pre := by
   induction pre using snoc_induction with
